@@ -2185,12 +2185,32 @@ class ItemSpaceImpl(DynamicSpaceImpl):
         else:
             raise ValueError("invalid name")
 
-        DynamicSpaceImpl.__init__(
-            self, parent, name, parent._named_itemspaces, base, refs, arguments, cache
-        )
-        self._bind_args(self.arguments)
-        self._init_child_spaces(self)
-        self._init_dynbaserefs()
+        try:
+            DynamicSpaceImpl.__init__(
+                self, parent, name, parent._named_itemspaces, base, refs,
+                arguments, cache
+            )
+            self._bind_args(self.arguments)
+            self._init_child_spaces(self)
+            self._init_dynbaserefs()
+        except BaseException:
+            self._on_init_error(parent)
+            raise
+
+    def _on_init_error(self, parent):
+        """Detach the partially constructed spaces from their bases"""
+
+        def detach(space):
+            if hasattr(space, "_named_spaces"):
+                for child in list(space._named_spaces.values()):
+                    detach(child)
+            if space in space._dynbase._dynamic_subs:
+                space._dynbase._dynamic_subs.remove(space)
+
+        detach(self)
+        name = getattr(self, "name", None)
+        if parent._named_itemspaces.get(name) is self:
+            parent._named_itemspaces.del_item(name)
 
     def _init_root(self, parent):
         self.rootspace = self
